@@ -109,6 +109,13 @@ private:
 	// The object's raw attributes
 	std::map<CK_ATTRIBUTE_TYPE, OSAttribute*> attributes;
 
+	// Copy of the attributes taken by startTransaction, restored by abortTransaction
+	std::map<CK_ATTRIBUTE_TYPE, OSAttribute*> savedAttributes;
+	bool inTransaction;
+
+	// Discard the copy taken by startTransaction
+	void discardSavedAttributes();
+
 	// The object's validity state
 	bool valid;
 
